@@ -114,8 +114,18 @@ def strat_riemann(tier):
     ratio = st.one_of(gen.f(-math.log(10), math.log(10)), st.sampled_from([0.0, math.log(8.0), -math.log(8.0)]))
     scheme = st.one_of(st.builds(lambda i: (dict(name="extrapol1"), i, 0.5), st.sampled_from(["explicit", "rk3ssp"])),
                        st.builds(lambda l, i: (dict(name="muscl", limiter=l), i, 0.4), st.sampled_from(gen.LIMITERS), st.sampled_from(["rk2_heun", "rk3ssp"])))
-    return st.builds(lambda g, lr, lp, mL, mR, fl, sch, sc_r, sc_p: dict(gamma=g, lnr=lr, lnp=lp, mL=mL, mR=mR, flux=fl, num=sch[0], integ=sch[1], cfl=sch[2], rho0=sc_r, p0=sc_p),
-                     gam, ratio, ratio, gen.f(-0.9, 0.9), gen.f(-0.9, 0.9), st.sampled_from(["hlle", "hllc"]), scheme, gen.logf(-1, 1), gen.logf(-1, 1))
+    general = st.builds(lambda g, lr, lp, mL, mR, fl, sch, sc_r, sc_p: dict(gamma=g, lnr=lr, lnp=lp, mL=mL, mR=mR, flux=fl, num=sch[0], integ=sch[1], cfl=sch[2], rho0=sc_r, p0=sc_p),
+                        gam, ratio, ratio, gen.f(-0.9, 0.9), gen.f(-0.9, 0.9), st.sampled_from(["hlle", "hllc"]), scheme, gen.logf(-1, 1), gen.logf(-1, 1))
+    # transonic rarefactions (both states subsonic, sonic point inside the fan): a common velocity of 0.55..0.95 c towards the low-pressure side
+    def trans(g, lr, lp, m, sgn, fl, sch, sc_r, sc_p):
+        # sgn = +1: high pressure on the left, flow to the right (left rarefaction); -1: mirror image
+        return dict(gamma=g, lnr=-sgn * lr, lnp=-sgn * lp, mL=sgn * m, mR=sgn * m, flux=fl, num=sch[0], integ=sch[1], cfl=sch[2], rho0=sc_r, p0=sc_p)
+    transonic = st.builds(trans, gam, gen.f(0.7, 2.3), gen.f(0.7, 2.3), gen.f(0.55, 0.95), st.sampled_from([1.0, -1.0]), st.sampled_from(["hlle", "hllc"]), scheme, gen.logf(-1, 1), gen.logf(-1, 1))
+    return st.one_of(general, general, transonic)
+
+
+FAN_RATIO = 0.75       # calibrated over 3800 cases (three seeds): observed <= 0.57 (first order, sonic point in the fan: the vanishing 'sonic glitch'), <= 0.37 otherwise
+FAN_STEP = 4.0         # largest jump on 400 cells x number of cells in the fan, in units of the fan's range: 1 for a linear fan, observed <= 2.2
 
 
 def _riemann_states(case):
@@ -154,7 +164,37 @@ def _riemann_error(case, n, T, exact):
         p_e += 0.25 * p_
     er = float(np.sum(np.abs(num[0] - rho_e)) * dx)
     ep = float(np.sum(np.abs(num[2] - p_e)) * dx)
-    return er, ep
+    return er, ep, _fan_jumps(exact, xc / T, np.asarray(num[0], dtype=float), dx / T)
+
+
+def _fans(exact):
+    """(head, tail, density at head, density at tail, contains a sonic point) of every rarefaction fan, in similarity coordinates"""
+    g = exact.g
+    out = []
+    if exact.ps <= exact.pl:
+        cs = exact.cl * (exact.ps / exact.pl) ** ((g - 1.0) / (2.0 * g))
+        head, tail = exact.ul - exact.cl, exact.us - cs
+        out.append((head, tail, exact.rl, exact.rl * (exact.ps / exact.pl) ** (1.0 / g), head < 0.0 < tail))
+    if exact.ps <= exact.pr:
+        cs = exact.cr * (exact.ps / exact.pr) ** ((g - 1.0) / (2.0 * g))
+        head, tail = exact.ur + exact.cr, exact.us + cs
+        out.append((tail, head, exact.rr * (exact.ps / exact.pr) ** (1.0 / g), exact.rr, tail < 0.0 < head))
+    return out
+
+
+def _fan_jumps(exact, xi, rho, dxi):
+    """largest cell-to-cell density jump strictly inside each rarefaction fan (two cells away from its edges), relative to the density range of the fan.
+    The exact solution is smooth there, so this is O(dx) for a convergent scheme; an expansion shock (entropy violation) keeps it O(1)."""
+    res = []
+    for lo, hi, ra, rb, sonic in _fans(exact):
+        rng = abs(rb - ra)
+        inside = (xi > lo + 2 * dxi) & (xi < hi - 2 * dxi)
+        idx = np.nonzero(inside[:-1] & inside[1:])[0]
+        if rng <= 0 or len(idx) < 4:
+            res.append(None)
+            continue
+        res.append((float(np.max(np.abs(rho[idx + 1] - rho[idx]))) / rng, len(idx), sonic, rng / max(ra, rb)))
+    return res
 
 
 def check_riemann(case):
@@ -200,7 +240,20 @@ def check_riemann(case):
                 % (which, e1, e2, e4, case["flux"], name, case["integ"], g, exact.pattern(), L, R))
         require(e4 <= 0.85 * e1, "riemann-converges", "%s L1 error on 400 cells (%.4g) is not below 0.85 x the error on 100 cells (%.4g) (%s/%s/%s, gamma=%g, pattern %s)"
                 % (which, e4, e1, case["flux"], name, case["integ"], g, exact.pattern()))
-    return dict(nontrivial=True, labels=labels)
+    # rarefactions are captured as rarefactions: inside a fan the numerical solution becomes continuous under refinement (no expansion shock)
+    for k, (j1, j4) in enumerate(zip(errs[0][2], errs[2][2])):
+        if j1 is None or j4 is None or j1[1] < 6 or j1[3] < 0.05:
+            continue
+        labels.append("fan-with-sonic-point" if j1[2] else "fan")
+        target(j4[0] / j1[0], "fan-jump-ratio-400/100:" + ("sonic" if j1[2] else "plain") + ":" + ("first" if name == "extrapol1" else "muscl"))
+        target(j4[0] * j4[1], "fan-jump-400 x cells-in-fan:" + ("sonic" if j1[2] else "plain") + ":" + ("first" if name == "extrapol1" else "muscl"))
+        if CALIB:
+            continue
+        require(j4[0] * j4[1] <= FAN_STEP, "rarefaction-is-resolved", "largest cell-to-cell density jump inside rarefaction fan %d on 400 cells is %.3g of the fan's range although %d cells lie in the fan "
+                "(expansion shock?) (%s/%s/%s, gamma=%g, pattern %s, L=%r R=%r)" % (k, j4[0], j4[1], case["flux"], name, case["integ"], g, exact.pattern(), L, R))
+        require(j4[0] <= FAN_RATIO * j1[0], "rarefaction-is-continuous", "largest cell-to-cell density jump inside rarefaction fan %d: %.3g of the fan's range on 100 cells, %.3g on 400 cells: it does not "
+                "vanish under refinement (expansion shock?) (%s/%s/%s, gamma=%g, pattern %s, L=%r R=%r)" % (k, j1[0], j4[0], case["flux"], name, case["integ"], g, exact.pattern(), L, R))
+    return dict(nontrivial=True, labels=sorted(set(labels)))
 
 
 # ---------------------------------------------------------------- (c) packaged reference solutions
